@@ -238,16 +238,24 @@ pub fn supervise(prop: &str, root: &std::path::Path, signature: &str, mem_bytes:
     use std::process::Stdio;
     if supervised_child() {
         limit_self(0, mem_bytes);
+        if !cfg!(miri) {
+            status_init(root, prop);
+        }
+        return None;
+    }
+    if cfg!(miri) || std::env::var_os("VERIF_NO_SUPERVISE").is_some() {
         return None;
     }
     let exe = std::env::current_exe().ok()?;
     let mut cmd = std::process::Command::new(exe);
-    cmd.args(std::env::args().skip(1)).env("VERIF_SUPERVISED", "1").stdout(Stdio::piped()).stdin(Stdio::null());
+    cmd.args(std::env::args().skip(1)).env("VERIF_SUPERVISED", "1").stdout(Stdio::piped()).stderr(Stdio::piped()).stdin(Stdio::null());
     let mut child = match cmd.spawn() {
         Ok(c) => c,
         Err(_) => return None, // cannot supervise: run unsupervised
     };
+    let pid = child.id();
     let out = child.stdout.take()?;
+    let err = child.stderr.take()?;
     let open = std::sync::Arc::new(Mutex::new(std::collections::BTreeMap::<String, String>::new()));
     let open2 = open.clone();
     let reader = std::thread::spawn(move || {
@@ -268,6 +276,20 @@ pub fn supervise(prop: &str, root: &std::path::Path, signature: &str, mem_bytes:
             }
         }
     });
+    // stderr is passed on, and its last lines are kept: the runtime names the thread whose stack
+    // overflowed and says when an allocation failed
+    let tail = std::sync::Arc::new(Mutex::new(std::collections::VecDeque::<String>::new()));
+    let tail2 = tail.clone();
+    let err_reader = std::thread::spawn(move || {
+        for line in BufReader::new(err).lines().map_while(Result::ok) {
+            eprintln!("{line}");
+            let mut t = tail2.lock().unwrap_or_else(|e| e.into_inner());
+            t.push_back(line.chars().take(300).collect());
+            if t.len() > 40 {
+                t.pop_front();
+            }
+        }
+    });
     let start = std::time::Instant::now();
     let status = loop {
         match child.try_wait() {
@@ -284,6 +306,16 @@ pub fn supervise(prop: &str, root: &std::path::Path, signature: &str, mem_bytes:
         }
     };
     let _ = reader.join();
+    let _ = err_reader.join();
+    let in_library = status_read(root, prop, pid);
+    // status pages of grandchildren (subprocess shards) are not read by anybody: sweep them
+    if let Ok(rd) = std::fs::read_dir(root.join("work")) {
+        for e in rd.flatten() {
+            if e.file_name().to_string_lossy().starts_with(&format!("status-{prop}-")) {
+                let _ = std::fs::remove_file(e.path());
+            }
+        }
+    }
     let Some(st) = status else {
         println!("INCONCLUSIVE property={prop} the supervised run hit the wall-clock watchdog ({} s) - not a verdict", wall.as_secs());
         return Some(0);
@@ -298,7 +330,19 @@ pub fn supervise(prop: &str, root: &std::path::Path, signature: &str, mem_bytes:
     } else {
         st.signal().map_or_else(|| format!("exit status {:?}", st.code()), |s| format!("signal {s}"))
     };
-    let marks: Vec<String> = open.lock().unwrap_or_else(|e| e.into_inner()).values().cloned().collect();
+    let stderr_tail: Vec<String> = tail.lock().unwrap_or_else(|e| e.into_inner()).iter().cloned().collect();
+    // the thread the runtime blames, if it says so ("thread 'shard-worker-3' has overflowed its stack")
+    let blamed: Option<String> = stderr_tail.iter().rev().find_map(|l| {
+        let rest = l.split("thread '").nth(1)?;
+        let (name, after) = rest.split_once('\'')?;
+        after.contains("has overflowed its stack").then(|| name.to_string())
+    });
+    let mut marks: Vec<String> = open.lock().unwrap_or_else(|e| e.into_inner()).values().cloned().collect();
+    for (thread, ctx) in &in_library {
+        if blamed.as_ref().is_none_or(|b| b == thread) {
+            marks.push(format!("thread {thread} was inside a call into the code under test while working on: {ctx}"));
+        }
+    }
     if marks.is_empty() {
         println!("INCONCLUSIVE property={prop} the supervised run died ({how}) outside any call into the code under test - harness problem, not a verdict");
         return Some(3);
@@ -309,8 +353,10 @@ pub fn supervise(prop: &str, root: &std::path::Path, signature: &str, mem_bytes:
     let doc = serde_json::json!({
         "property": prop, "signature": signature, "how_the_process_died": how,
         "calls_into_the_code_under_test_that_were_in_progress": marks,
-        "meaning": "the process died (allocation failure / stack exhaustion / abort) or was stopped by the CPU-time hang watchdog while the code under test was handling one of these inputs, under an address-space limit of the stated size",
+        "last_lines_of_stderr": stderr_tail,
+        "meaning": "the process died (stack exhaustion / allocation failure / abort) or was stopped by the CPU-time hang watchdog while the code under test was handling one of these inputs, under an address-space limit of the stated size (0 = none). Re-run the check with the same seed and tier to reproduce.",
         "address_space_limit_bytes": mem_bytes,
+        "args": std::env::args().collect::<Vec<_>>(),
     });
     let _ = std::fs::write(&path, serde_json::to_string_pretty(&doc).unwrap_or_default());
     println!("VIOLATION property={prop} replay={} signature={signature} occurrences=1", path.display());
@@ -378,6 +424,7 @@ pub fn tick() {
 
 /// What this thread is working on (shown as the witness if it hangs).
 pub fn set_context(text: String) {
+    status_context(&text);
     let _ = PULSE.try_with(|p| {
         *p.0.ctx.lock().unwrap_or_else(|e| e.into_inner()) = text;
         p.0.ticks.fetch_add(1, Ordering::Relaxed);
@@ -443,4 +490,120 @@ pub fn start_hang_watchdog(prop: &str, root: &std::path::Path, budget_cpu_s: f64
             }
         });
     });
+}
+
+// ---------------------------------------------------------------------------------------------
+// Status page: what every worker thread of a supervised child is doing, readable by the parent
+// after the child died (stack exhaustion, allocation failure and abort() cannot be caught in
+// the process itself). A file under <root>/work is mapped shared; each thread owns one slot:
+//   byte 0        depth of `catch` nesting = "inside a call into the code under test"
+//   bytes 1..64   thread name (NUL padded)
+//   bytes 64..512 context text (NUL padded), see `set_context`
+// Stores are plain byte writes into the mapping; the parent only reads it after the child ended.
+
+const SLOT: usize = 512;
+const SLOTS: usize = 96;
+static STATUS_BASE: std::sync::atomic::AtomicUsize = std::sync::atomic::AtomicUsize::new(0);
+static NEXT_SLOT: AtomicUsize = AtomicUsize::new(0);
+
+thread_local! {
+    static MY_SLOT: std::cell::Cell<usize> = const { std::cell::Cell::new(usize::MAX) };
+}
+
+fn status_path(root: &std::path::Path, prop: &str, pid: u32) -> std::path::PathBuf {
+    root.join("work").join(format!("status-{prop}-{pid}.bin"))
+}
+
+/// Child mode: create and map the status page (no-op when not supervised).
+fn status_init(root: &std::path::Path, prop: &str) {
+    if !supervised_child() || STATUS_BASE.load(Ordering::Relaxed) != 0 {
+        return;
+    }
+    let _ = std::fs::create_dir_all(root.join("work"));
+    let path = status_path(root, prop, std::process::id());
+    let Ok(file) = std::fs::OpenOptions::new().read(true).write(true).create(true).truncate(true).open(&path) else { return };
+    if file.set_len((SLOT * SLOTS) as u64).is_err() {
+        return;
+    }
+    use std::os::fd::AsRawFd;
+    // SAFETY: mapping a regular file we just created with the length we just set; the mapping
+    // lives for the rest of the process
+    let p = unsafe { libc::mmap(std::ptr::null_mut(), SLOT * SLOTS, libc::PROT_READ | libc::PROT_WRITE, libc::MAP_SHARED, file.as_raw_fd(), 0) };
+    if p != libc::MAP_FAILED {
+        STATUS_BASE.store(p as usize, Ordering::Release);
+    }
+}
+
+fn my_slot() -> Option<*mut u8> {
+    let base = STATUS_BASE.load(Ordering::Acquire);
+    if base == 0 {
+        return None;
+    }
+    let idx = MY_SLOT.try_with(|c| {
+        if c.get() == usize::MAX {
+            let i = NEXT_SLOT.fetch_add(1, Ordering::Relaxed);
+            c.set(if i < SLOTS { i } else { usize::MAX - 1 });
+            if i < SLOTS {
+                let name = std::thread::current().name().unwrap_or("unnamed").to_string();
+                // SAFETY: slot i lies inside the mapping; only this thread writes it
+                unsafe {
+                    let dst = (base + i * SLOT + 1) as *mut u8;
+                    let n = name.len().min(62);
+                    std::ptr::copy_nonoverlapping(name.as_ptr(), dst, n);
+                }
+            }
+        }
+        c.get()
+    }).ok()?;
+    (idx < SLOTS).then(|| (base + idx * SLOT) as *mut u8)
+}
+
+/// Marks this thread as being inside a call into the code under test (nesting allowed).
+#[inline]
+pub fn call_enter() {
+    if let Some(p) = my_slot() {
+        // SAFETY: p points at this thread's own slot inside the mapping
+        unsafe { p.write_volatile(p.read_volatile().saturating_add(1)) };
+    }
+}
+
+#[inline]
+pub fn call_leave() {
+    if let Some(p) = my_slot() {
+        // SAFETY: as above
+        unsafe { p.write_volatile(p.read_volatile().saturating_sub(1)) };
+    }
+}
+
+/// Runs `f` marked as a call into the code under test (for call sites that are not under `catch`).
+pub fn in_library<R>(f: impl FnOnce() -> R) -> R {
+    call_enter();
+    let r = f();
+    call_leave();
+    r
+}
+
+fn status_context(text: &str) {
+    if let Some(p) = my_slot() {
+        let bytes = text.as_bytes();
+        let n = bytes.len().min(SLOT - 64 - 1);
+        // SAFETY: the context area [64, 512) of this thread's own slot
+        unsafe {
+            let dst = p.add(64);
+            std::ptr::write_bytes(dst, 0, SLOT - 64);
+            std::ptr::copy_nonoverlapping(bytes.as_ptr(), dst, n);
+        }
+    }
+}
+
+/// Parent: the threads of a dead child that were inside a call into the code under test.
+fn status_read(root: &std::path::Path, prop: &str, pid: u32) -> Vec<(String, String)> {
+    let path = status_path(root, prop, pid);
+    let data = std::fs::read(&path).unwrap_or_default();
+    let _ = std::fs::remove_file(&path);
+    let text = |b: &[u8]| String::from_utf8_lossy(b.split(|c| *c == 0).next().unwrap_or(&[])).to_string();
+    data.chunks(SLOT)
+        .filter(|c| c.len() == SLOT && c[0] > 0)
+        .map(|c| (text(&c[1..64]), text(&c[64..])))
+        .collect()
 }
